@@ -42,6 +42,10 @@ func (a Any) completeIndexExprAtPos(ctx context.Context, pos hcl.Pos) []lang.Can
 	// If there is a prefix or valid expression within the index step,
 	// we're dealing with an index expression and can defer completion for the key.
 	case *hclsyntax.IndexExpr:
+		if !eType.Key.Range().ContainsPos(pos) && eType.Key.Range().End.Byte != pos.Byte {
+			// cursor is outside of the key (e.g. on the collection)
+			return candidates
+		}
 		return newExpression(a.pathCtx, eType.Key, cons).CompletionAtPos(ctx, pos)
 	}
 
